@@ -238,6 +238,25 @@ Definition load_db_value (ix : vindex) (st : store) : outcome dbvalue :=
   | _ => Panic                                                   (* _ => panic!() *)
   end.
 
+(* the two bounds-check repairs of load_db_value (fixes/C07-value-index.diff): an inline numeric
+   value whose size is not 8 and an unknown type nibble are errors instead of panics; the checks
+   sit in front of the unchanged match *)
+Record vguards := { vg_num_checked : bool; vg_type_checked : bool }.
+Definition vg_pinned : vguards := {| vg_num_checked := false; vg_type_checked := false |}.
+Definition vg_fixed : vguards := {| vg_num_checked := true; vg_type_checked := true |}.
+(* /repo after 51d65f2: the numeric check is in, the `_ => panic!()` arm is pinned by the suite *)
+Definition vg_current : vguards := {| vg_num_checked := true; vg_type_checked := false |}.
+
+Definition is_numeric_type (t : N) : bool := (2 <=? t) && (t <=? 4).
+Definition is_known_type (t : N) : bool := (1 <=? t) && (t <=? 9).
+
+Definition load_db_value_g (g : vguards) (ix : vindex) (st : store) : outcome dbvalue :=
+  if is_numeric_type (vi_type ix) && negb (vi_size ix =? 8) then
+    (if vg_num_checked g then Err else Panic)
+  else if negb (is_known_type (vi_type ix)) then
+    (if vg_type_checked g then Err else Panic)
+  else load_db_value ix st.
+
 (* VecValue<DbValue>::remove *)
 Definition remove_value (bs : bytes) (st : store) : outcome store :=
   obind (vi_deserialize bs) (fun ix =>
